@@ -80,7 +80,19 @@ func (g *c19G) In(i int) []int  { g.tick(); return g.in[i] }
 // consulting the graph exceeds any such bound at once.
 func c19StepBudget(n int) int64 {
 	N := int64(n)
-	return 8*(N+1)*(N*N+N+2) + 1024
+	b := 8*(N+1)*(N*N+N+2) + 1024
+	// For big graphs the cubic bound is astronomically loose (6e10 calls at
+	// n = 2000) and a runaway would not be noticed in any reasonable time.
+	// The iterative algorithm needs at most about n sweeps over at most
+	// n + m adjacency entries even on irreducible graphs, and every faster
+	// algorithm needs less: 4096 calls per node is far beyond what any
+	// plausible implementation makes on the structured graphs of the
+	// large-ids class (depth-limited, a handful of sweeps) and still small
+	// enough to trip within a second.
+	if lin := 4096 * (N + 64); b > lin {
+		b = lin
+	}
+	return b
 }
 
 // ---- reference view -----------------------------------------------------------
